@@ -248,6 +248,21 @@ mut(
     mention=["_add_imports_to_sqlalchemy_create_all"],
 )
 mut(
+    "c20-merge-extends-first-list-in-place",
+    "C20",
+    "C20.sharednode",
+    "cdd/shared/ast_utils.py",
+    """    del_ass_where_name(node, name)
+    elts = map(
+""",
+    """    if asses:
+        asses[-1].elts.extend(e for a in asses[:-1] for e in a.elts)
+    del_ass_where_name(node, name)
+    elts = map(
+""",
+    mention=["merge_assignment_lists", "__all___node"],
+)
+mut(
     "c20-gate-after-emit",
     "C20",
     "C20.gate",
